@@ -156,6 +156,7 @@ class Registry(object):
         self.inline_ok = set()  # qualnames that may be inlined even if large
         self.no_inline = set()
         self.assumptions = []  # free-text assumptions used
+        self.spec_consts = {}  # name -> Val, constants usable in clause text
 
     def klass(self, name, py=None, fields=None, inv=(), ghost=None):
         self.classes[name] = dict(py=py, fields=dict(fields or {}), inv=list(inv), ghost=dict(ghost or {}))
@@ -451,6 +452,8 @@ class SpecEval(object):
             return VBool(n.id == 'True')
         if n.id in e.st.ghost:
             return e.st.ghost[n.id]
+        if n.id in getattr(self.reg, 'spec_consts', {}):
+            return self.reg.spec_consts[n.id]
         raise SpecError('spec: unknown name %s' % n.id)
 
     def ev_Attribute(self, n, e):
